@@ -47,6 +47,16 @@ def correspondence(ctx):
             continue
         dis.append(f"operator: {a_} :: {b_}"[:300])
         fails.append({"key": k_, "what": f"{a_}: {b_}"[:400], "code": operator_replay(ctx.seed, ctx.tier, k_)})
+    # documented parameter names and defaults: keyword call = positional call in the documented order (all backends)
+    kbad, kst = backends.keyword_lattice(ctx)
+    total += kst["keyword_calls"]
+    st.update(kst)
+    kseen = set()
+    for a_, b_, k_ in kbad:
+        if k_ not in kseen:
+            kseen.add(k_)
+            dis.append(f"signature: {a_} :: {b_}"[:300])
+            fails.append({"key": k_, "what": f"{a_}: {b_}"[:400], "code": keyword_replay(ctx.seed, ctx.tier, k_)})
     st.update({"traces_validated_against_impl": total, "type_lattice_disagreement_classes": classes})
     return {"ok": not dis, "disagreements": dis[:20], "failing_inputs": fails[:10] + known_hits, "stats": st,
             "samples": [{"request": reqs[i], "answer": symobj.real_answer(reqs[i])[:160]} for i in (0, len(reqs) // 2, len(reqs) - 1)]}
@@ -62,4 +72,10 @@ def type_replay(q, want, registered, seed, tier):
 def operator_replay(seed, tier, key):
     return ("import sys; sys.path.insert(0, %r); sys.path.insert(0, %r)\nfrom harness import backends as Bk\n"
             "class X: seed=%d; tier=%r\nbad, _ = Bk.operator_value_lattice(X)\nhit=[b for b in bad if b[2]==%r]\n"
+            "assert not hit, hit[0][0] + ' :: ' + hit[0][1]\n" % (C.VERIF, C.VERIF + "/tools", seed, tier, key))
+
+
+def keyword_replay(seed, tier, key):
+    return ("import sys; sys.path.insert(0, %r); sys.path.insert(0, %r)\nfrom harness import backends as Bk\n"
+            "class X: seed=%d; tier=%r\nbad, _ = Bk.keyword_lattice(X)\nhit=[b for b in bad if b[2]==%r]\n"
             "assert not hit, hit[0][0] + ' :: ' + hit[0][1]\n" % (C.VERIF, C.VERIF + "/tools", seed, tier, key))
